@@ -72,9 +72,8 @@ def discover_flags(model: Model, roles: Roles, stack_tl) -> list:
                             vals.append(n.value)
             if not vals:
                 raise AnalysisError(f"{q}: store to thread-local flag in an unrecognised form")
-            falsy = [isinstance(v, ast.Constant) and not v.value for v in vals]
-            truthy = [(isinstance(v, ast.Constant) and bool(v.value)) or isinstance(v, ast.JoinedStr)
-                      or _is_module_sentinel(model, fn, v) for v in vals]
+            falsy = [value_polarity(model, fn, v) == "falsy" for v in vals]
+            truthy = [value_polarity(model, fn, v) == "truthy" or isinstance(v, ast.JoinedStr) for v in vals]
             if all(falsy):
                 fl.clearers.append(fn)
             elif all(truthy):
@@ -147,6 +146,33 @@ def discover_flags(model: Model, roles: Roles, stack_tl) -> list:
             if touches(en) or touches(ex):
                 fl.cms.append(c)
     return out
+
+
+def value_polarity(model, fn, v, depth=0):
+    """'truthy' | 'falsy' | None for a value stored into a flag; a local name is followed to
+    all its definitions in fn (they must agree)."""
+    if isinstance(v, ast.Constant):
+        return "truthy" if v.value else "falsy"
+    if isinstance(v, ast.JoinedStr) and any(isinstance(x, ast.Constant) and x.value for x in v.values):
+        return "truthy"
+    if _is_module_sentinel(model, fn, v):
+        return "truthy"
+    if isinstance(v, ast.Name) and depth < 2 and isinstance(fn, FuncInfo) and v.id in fn.local_names() and v.id not in fn.params:
+        pols = set()
+        for n in walk_scope(fn.node):
+            if isinstance(n, ast.Assign):
+                for t in n.targets:
+                    if isinstance(t, ast.Name) and t.id == v.id:
+                        pols.add(value_polarity(model, fn, n.value, depth + 1))
+                    elif any(isinstance(x, ast.Name) and x.id == v.id for x in ast.walk(t)):
+                        pols.add(None)
+            elif isinstance(n, (ast.AugAssign, ast.AnnAssign, ast.For, ast.With, ast.NamedExpr)):
+                tg = getattr(n, "target", None)
+                if tg is not None and any(isinstance(x, ast.Name) and x.id == v.id for x in ast.walk(tg)):
+                    pols.add(None)
+        if len(pols) == 1:
+            return pols.pop()
+    return None
 
 
 def _is_module_sentinel(model, fn, v) -> bool:
@@ -254,11 +280,10 @@ def analyse_flag_function(model: Model, roles: Roles, cg: CallGraph, flag: Flag,
             for t in a.targets:
                 if isinstance(t, ast.Attribute) and is_flag_attr(t):
                     v = a.value
-                    if isinstance(v, ast.Constant):
-                        direct[n.id] = "set" if v.value else "clr"
+                    pol = value_polarity(model, fn, v)
+                    if pol is not None:
+                        direct[n.id] = "set" if pol == "truthy" else "clr"
                     elif isinstance(v, ast.JoinedStr):
-                        direct[n.id] = "set"
-                    elif _is_module_sentinel(model, fn, v):
                         direct[n.id] = "set"
                     elif isinstance(v, (ast.Name, ast.Attribute)):
                         direct[n.id] = "restore:" + norm(v)
